@@ -101,7 +101,9 @@ pub enum IT {
     IMap(Fn1, Box<IT>),
     IMapWith(Mw, Box<IT>),
     IOrNot(G),
-    IRepCfg(G, usize, Option<usize>),
+    /// last field: which bounds the configuring closure sets from `n = val_count(ctx)`:
+    /// 0 = exactly(n), 1 = at_least(n), 2 = at_most(n), 3 = none (config returned unchanged)
+    IRepCfg(G, usize, Option<usize>, usize),
 }
 
 #[derive(Clone, Copy, Debug, PartialEq, Eq, Hash)]
@@ -491,7 +493,8 @@ pub fn parse_it(tk: Tk, s: &Sexp) -> R<IT> {
         ("IMap", [f, i]) => IT::IMap(parse_fn1(f)?, bit(i)?),
         ("IMapWith", [m, i]) => IT::IMapWith(parse_mw(m)?, bit(i)?),
         ("IOrNot", [a]) => IT::IOrNot(parse_g(tk, a)?),
-        ("IRepCfg", [a, lo, hi]) => IT::IRepCfg(parse_g(tk, a)?, nat(lo)?, opt_nat(hi)?),
+        ("IRepCfg", [a, lo, hi]) => IT::IRepCfg(parse_g(tk, a)?, nat(lo)?, opt_nat(hi)?, 0),
+        ("IRepCfg", [a, lo, hi, ck]) => IT::IRepCfg(parse_g(tk, a)?, nat(lo)?, opt_nat(hi)?, nat(ck)?),
         _ => return None,
     })
 }
